@@ -927,6 +927,22 @@ class Interp:
         if d and d[0].k == "ip" and (fn in ("core::net::ip_addr::Ipv4Addr::to_bits", "core::net::ip_addr::Ipv6Addr::to_bits")
                                      or (fn == "core::convert::From::from" and ("<impl core::convert::From<core::net::ip_addr::Ipv" in nm) and "for u" in nm)):
             return vint(int.from_bytes(bytes(d[0].v), "big"))
+        if m == "to_canonical" and fn.startswith("core::net::ip_addr::") and d:
+            x_ = d[0]
+            wrapped = x_.k == "adt" and x_.extra and x_.extra[0].endswith("IpAddr") and x_.v and x_.v[0].deref().k == "ip"
+            ipv = x_.v[0].deref() if wrapped else (x_ if x_.k == "ip" else None)
+            if ipv is not None:
+                b_ = list(ipv.v)
+                if len(b_) == 16 and b_[:10] == [0] * 10 and b_[10:12] == [255, 255]:
+                    ipv = Val("ip", b_[12:], 4)
+                if wrapped or fn.endswith("IpAddr::to_canonical") or fn.endswith("Ipv6Addr::to_canonical"):
+                    return Val("adt", [ipv], ("core::net::ip_addr::IpAddr", "V4" if len(ipv.v) == 4 else "V6"))
+                return ipv
+        if m in ("to_ipv4_mapped", "to_ipv4") and fn.startswith("core::net::ip_addr::Ipv6Addr::") and d and d[0].k == "ip" and len(d[0].v) == 16:
+            b_ = list(d[0].v)
+            if b_[:10] == [0] * 10 and b_[10:12] == [255, 255]:
+                return some(Val("ip", b_[12:], 4))
+            return NONE_V if m == "to_ipv4_mapped" or b_[:12] != [0] * 12 else some(Val("ip", b_[12:], 4))
         if fn == "core::net::ip_addr::Ipv6Addr::segments" and d and d[0].k == "ip" and len(d[0].v) == 16:
             return Val("list", [vint((d[0].v[2 * i] << 8) | d[0].v[2 * i + 1]) for i in range(8)])
         if fn in ("core::str::<impl str>::chars",) and d and d[0].k == "str":
